@@ -5,7 +5,7 @@ from __future__ import annotations
 import ast
 
 from ..report import Cx, Ob, describe, obligation
-from ..rules import API, CONV, CURIE_SIDE, URI_SIDE, Prov, _container_fields, fewer_than_two, guard_atoms, pair_compare_cover, construct_of_plain_strings, where
+from ..rules import API, CONV, CURIE_SIDE, URI_SIDE, Prov, _container_fields, fewer_than_two, guard_atoms, pair_compare_cover, construct_of_plain_strings, construct_from_full_dump, where
 from ..summ import Ctx, describe_path
 from ..terms import callee_name, is_const, op, show, substitute, subterms
 
@@ -687,6 +687,9 @@ def d3(cx: Cx, ob: Ob) -> None:
         for c, ev, _ in fs.calls():
             f = c[1]
             if op(f) == "attr" and op(f[1]) == "cls" and f[1][1].endswith(".Record") and f[2] in ("model_construct", "construct"):
+                if construct_from_full_dump(c):
+                    ob.site(f"{where(fn, ev.line)} {fn.qualname}", "model_construct from the full dump of a validated record: a copy")
+                    continue
                 if construct_of_plain_strings(c):
                     ob.site(f"{where(fn, ev.line)} {fn.qualname}", "model_construct of the two canonical fields as plain strings: no synonym list the skipped validators could object to")
                     continue
